@@ -4,6 +4,7 @@ import (
 	"math"
 	"math/big"
 	"strconv"
+	"unsafe"
 
 	"gopkg.in/typ.v4"
 )
@@ -58,9 +59,17 @@ func str[T integer](v T, signed bool) string {
 }
 
 func convList[T integer](bs []*big.Int) []T {
-	out := make([]T, len(bs))
+	// spare capacity holding the extreme values of T behind the logical end (a variadic call `f(s...)` hands the function the caller's slice)
+	out := make([]T, len(bs), len(bs)+2)
 	for i, b := range bs {
 		out[i] = conv[T](b)
+	}
+	tail := out[len(bs):cap(out)]
+	var zero T
+	tail[0] = ^zero // all ones: the maximum of an unsigned type, -1 of a signed one
+	if zero-1 < zero {
+		tail[0] = T(1) << (unsafe.Sizeof(zero)*8 - 2) // a large positive value of a signed type
+		tail[1] = -tail[0] - tail[0]                  // its minimum
 	}
 	return out
 }
@@ -188,10 +197,12 @@ func (c20) step(t []string) string {
 	switch t[1] {
 	case "f64":
 		// float64 operands cross the pipe as their IEEE-754 bit patterns (int64); the result likewise, NaN as "nan"
-		var xs []float64
-		for _, b := range bigList(t[2]) {
+		bl := bigList(t[2])
+		xs := make([]float64, 0, len(bl)+2)
+		for _, b := range bl {
 			xs = append(xs, math.Float64frombits(uint64(b.Int64())))
 		}
+		xs[len(xs):cap(xs)][0], xs[len(xs):cap(xs)][1] = math.Inf(1), math.NaN() // junk behind the logical end
 		var r float64
 		switch t[0] {
 		case "sum":
